@@ -328,6 +328,21 @@ pub mod balance {
         }
     }
 
+    thread_local! {
+        static CALL_SNAPSHOTS: Cell<bool> = const { Cell::new(false) };
+    }
+
+    /// Turns the execution state snapshots around every filter, test, function,
+    /// method and object call of this thread on or off (off by default: they
+    /// cost an allocation per call).
+    pub fn set_call_snapshots(on: bool) {
+        CALL_SNAPSHOTS.with(|x| x.set(on));
+    }
+
+    pub(crate) fn call_snapshots() -> bool {
+        CALL_SNAPSHOTS.with(|x| x.get())
+    }
+
     /// Returns and clears the nested-evaluation mismatches logged on this thread.
     pub fn take_nested_mismatches() -> Vec<NestedMismatch> {
         NESTED_MISMATCHES.with(|x| std::mem::take(&mut *x.borrow_mut()))
